@@ -58,6 +58,60 @@ def fingerprint():
     return parts
 
 
+def watch_slots():
+    """module-level and class-level slots of mindsdb_sql.* / sly.*: scalars by value, containers by (identity, length)"""
+    slots = []
+    for name, mod in sorted(sys.modules.items()):
+        if mod is None or not (name == 'sly' or name.startswith('sly.') or name == 'mindsdb_sql' or name.startswith('mindsdb_sql.')):
+            continue
+        dicts = [(name, vars(mod))]
+        for k, v in list(vars(mod).items()):
+            if isinstance(v, type) and getattr(v, '__module__', None) == name:
+                dicts.append(('%s.%s' % (name, k), v.__dict__))
+        for dn, dd in dicts:
+            for k, v in list(dd.items()):
+                if k.startswith('__'):
+                    continue
+                if isinstance(v, (str, int, float, bool, type(None), bytes)):
+                    slots.append((dn, dd, k, 'v', v))
+                elif isinstance(v, (dict, list, set)):
+                    slots.append((dn, dd, k, 'c', (id(v), len(v))))
+    return slots
+
+
+def during_call_watch(every=5):
+    """run the battery with a profile hook that compares the watch slots with their values before the battery at every `every`-th
+    entry into a library function: state that a call changes and puts back (invisible to a before/after fingerprint) is visible to
+    whatever runs concurrently.  -> (events seen, comparisons, first differences)"""
+    slots = watch_slots()
+    st = {'events': 0, 'checks': 0, 'diffs': []}
+    roots = ('mindsdb_sql', 'sly')
+
+    def hook(frame, event, arg):
+        if event != 'call' or st['diffs']:
+            return
+        fn = frame.f_code.co_filename
+        if '/mindsdb_sql/' not in fn and '/sly/' not in fn:
+            return
+        st['events'] += 1
+        if st['events'] % every:
+            return
+        st['checks'] += 1
+        for dn, dd, k, kind, base in slots:
+            cur = dd.get(k, '<deleted>')
+            if kind == 'v':
+                if cur is not base and cur != base:
+                    st['diffs'].append({'slot': '%s.%s' % (dn, k), 'before': repr(base)[:80], 'during': repr(cur)[:80], 'inside': frame.f_code.co_qualname if hasattr(frame.f_code, 'co_qualname') else frame.f_code.co_name})
+            elif not isinstance(cur, (dict, list, set)) or (id(cur), len(cur)) != base:
+                st['diffs'].append({'slot': '%s.%s' % (dn, k), 'before': 'container %r' % (base,), 'during': repr(cur)[:80], 'inside': frame.f_code.co_name})
+    sys.setprofile(hook)
+    try:
+        battery()
+    finally:
+        sys.setprofile(None)
+    return st['events'], st['checks'], st['diffs']
+
+
 def render_history():
     """(runs in a fresh interpreter) every statement of a small family is rendered by renderers built from the SQLAlchemy
     dialect CLASSES first, then renderers for all dialect NAMES are created and used (plus failing parses/plans), then the
@@ -317,6 +371,19 @@ def run(tier):
         run.sample({'fingerprint_roots': len(fp0), 'examples': sorted(fp0)[:5]})
     except Exception as e:  # noqa
         run.error('fingerprint part crashed: %r' % e)
+    # ---- (b2) the same slots observed DURING the calls (temporarily changed and restored state)
+    try:
+        ev, ck, diffs = during_call_watch()
+        run.validated += ck
+        if diffs:
+            d0 = diffs[0]
+            run.counterexample('global-state-during-call:%s' % d0['slot'], 'library-global state %s is %s while a call is running (inside %s) and %s before it: concurrent calls see the changed value' %
+                               (d0['slot'], d0['during'], d0['inside'], d0['before']), {'differences': diffs[:5]}, True)
+            run.ob('fingerprint:globals-unchanged-during-calls', 'counterexample', diffs[:3])
+        else:
+            run.ob('fingerprint:globals-unchanged-during-calls', 'discharged', '%d library function entries, module/class slots compared at %d of them' % (ev, ck))
+    except Exception as e:  # noqa
+        run.error('during-call watch crashed: %r' % e)
     # ---- (c) catalog reuse
     path, names = gen()
     ch_obligations(run, path, [dict(fn=n_, twin=None, replay=r_reuse) for n_ in names], cond_to=300 if tier == 'quick' else 900, path_to=60)
